@@ -1,4 +1,303 @@
-//! harness family c08trk — stub until the family is built
+//! harness family c08trk (property C08, bit-level half lifted to whole images):
+//! real `create`d NIB / WOZ1 / WOZ2 5.25 inch images (16 and 13 sectors) against `Model.TrackImg`.
+//!
+//! idx 0..5    `new`: TMAP, TRKS entries and the bits of every formatted track vs the model's formatter
+//!             (digest of all 35 tracks + two tracks bit for bit); direct oracles: address fields of every
+//!             track (volume, track, sector order, checksum), TMAP whole-track injectivity, TRKS ranges.
+//! idx 100..   `seq`: random read/write sequences over whole images (random track order, optionally all
+//!             tracks rotated first so that the head starts somewhere else), answers + digest of every
+//!             track buffer after each write vs the model; reference-map oracle (read-after-write, frame in
+//!             the track and across tracks on the raw bytes, invalid addresses refused and harmless).
+//! Track buffers are cut out of `to_bytes()` at the fixed offsets the formatter established (the reference
+//! map track -> storage), not through the image's own TMAP lookup.
 use crate::util::*;
+use a2kit::img::{names, DiskImage, NibbleError};
+use std::collections::BTreeMap;
 
-pub fn run(ctx: &mut Ctx) { ctx.out.case(b"c08trk-stub", false); }
+const SKEW13: [u8; 13] = [0, 10, 7, 4, 1, 11, 8, 5, 2, 12, 9, 6, 3];
+const KINDS: [&str; 3] = ["nib", "woz1", "woz2"];
+
+fn make(kind: &str, six: bool, vol: u8) -> Box<dyn DiskImage> {
+    let k = if six { names::A2_DOS33_KIND } else { names::A2_DOS32_KIND };
+    match kind {
+        "nib" => Box::new(a2kit::img::nib::Nib::create(vol, k)),
+        "woz1" => Box::new(a2kit::img::woz1::Woz1::create(vol, k)),
+        _ => Box::new(a2kit::img::woz2::Woz2::create(vol, k)),
+    }
+}
+
+/// (offset of track 0's buffer in `to_bytes()`, stride, buffer length)
+fn layout(kind: &str) -> (usize, usize, usize) {
+    match kind {
+        "nib" => (0, 6656, 6656),
+        "woz1" => (256, 6656, 6646),
+        _ => (1536, 13 * 512, 13 * 512),
+    }
+}
+
+fn bit_count(kind: &str, six: bool) -> usize {
+    let (sync, secs, nibs) = match (kind, six) { ("nib", true) => (8, 16, 343), ("nib", false) => (8, 13, 411), (_, true) => (10, 16, 343), (_, false) => (9, 13, 411) };
+    if kind == "nib" { 6656 * 8 } else { 40 * sync + secs * (14 * 8 + 10 * sync + (6 + nibs) * 8 + 20 * sync) }
+}
+
+fn raw_tracks(img: &mut Box<dyn DiskImage>, kind: &str) -> Vec<Vec<u8>> {
+    let bytes = img.to_bytes();
+    let (o, stride, len) = layout(kind);
+    (0..35).map(|t| bytes[o + t * stride..o + t * stride + len].to_vec()).collect()
+}
+
+fn combine(ds: &[u64]) -> u64 {
+    let mut v: Vec<u8> = Vec::new();
+    for d in ds { v.extend_from_slice(&d.to_le_bytes()); }
+    fnv(&v)
+}
+
+fn rotate_bits(buf: &mut Vec<u8>, n: usize, k: usize) {
+    let get = |b: &Vec<u8>, p: usize| (b[p / 8] >> (7 - p % 8)) & 1;
+    let orig = buf.clone();
+    for j in 0..n {
+        let v = get(&orig, (j + k) % n);
+        let m = 1u8 << (7 - j % 8);
+        if v == 1 { buf[j / 8] |= m } else { buf[j / 8] &= !m }
+    }
+}
+
+fn err_str(e: &Box<dyn std::error::Error>) -> String {
+    match e.downcast_ref::<NibbleError>() {
+        Some(NibbleError::BadTrack) => "nib:bad-track".into(),
+        Some(NibbleError::SectorNotFound) => "nib:sector-not-found".into(),
+        Some(NibbleError::InvalidByte) => "nib:invalid-byte".into(),
+        Some(NibbleError::BadChecksum) => "nib:bad-checksum".into(),
+        Some(_) => "nib:other".into(),
+        None => "err".into(),
+    }
+}
+
+/// nibbles of one revolution by a plain 8-bit latch over the first `n` bits, started at bit `start`
+fn latch(buf: &[u8], n: usize, start: usize) -> Vec<u8> {
+    let get = |p: usize| (buf[(p % n) / 8] >> (7 - (p % n) % 8)) & 1;
+    let mut out = Vec::new();
+    let mut p = start;
+    while p < start + n {
+        if get(p) == 0 { p += 1; continue; }
+        let mut v = 0u8;
+        for j in 0..8 { v = (v << 1) | get(p + j); }
+        out.push(v);
+        p += 8;
+    }
+    out
+}
+
+fn dec44(a: u8, b: u8) -> u8 { ((a << 1) | 1) & b }
+
+fn new_case(ctx: &mut Ctx, idx: usize, rng: &mut Rng) {
+    let kind = KINDS[idx % 3];
+    let six = idx / 3 == 0;
+    let vol = rng.byte();
+    let desc = format!("idx={} new {} {} vol={}", idx, kind, if six { "16" } else { "13" }, vol);
+    let sig = |s: &str| format!("c08/{}/{}", kind, s);
+    let res = guarded(|| {
+        let mut img = make(kind, six, vol);
+        let bytes = img.to_bytes();
+        let tracks = raw_tracks(&mut img, kind);
+        let (tmap, ents, off): (Vec<u8>, Vec<(usize, usize, usize)>, usize) = match kind {
+            "nib" => (vec![], vec![], 0),
+            "woz1" => (bytes[88..248].to_vec(), (0..35).map(|t| { let e = 256 + t * 6656 + 6646; (0, 0, u16::from_le_bytes([bytes[e + 2], bytes[e + 3]]) as usize) }).collect(), 0),
+            _ => (bytes[88..248].to_vec(), (0..160).map(|t| { let e = 256 + t * 8; (u16::from_le_bytes([bytes[e], bytes[e + 1]]) as usize, u16::from_le_bytes([bytes[e + 2], bytes[e + 3]]) as usize, u32::from_le_bytes([bytes[e + 4], bytes[e + 5], bytes[e + 6], bytes[e + 7]]) as usize) }).collect(), 1536),
+        };
+        let total: usize = match kind { "nib" => bytes.len(), "woz1" => 35 * 6646, _ => bytes.len() - 1536 };
+        let ent_s = if ents.is_empty() { "-".to_string() } else { ents.iter().map(|e| format!("{}.{}.{}", e.0, e.1, e.2)).collect::<Vec<_>>().join(",") };
+        let ans = format!("tmap:{};ents:{};off:{};len:{};trk:{}", hx(&tmap), ent_s, off, total,
+            tracks.iter().map(|t| fnv(t).to_string()).collect::<Vec<_>>().join(","));
+        // direct oracles (no model)
+        let mut fails: Vec<(String, String)> = Vec::new();
+        let n = bit_count(kind, six);
+        let nsec = if six { 16 } else { 13 };
+        for (t, buf) in tracks.iter().enumerate() {
+            let nibs = latch(buf, n, 0);
+            let p3 = if six { 0x96 } else { 0xb5 };
+            let mut secs: Vec<u8> = Vec::new();
+            let mut ok = true;
+            let mut i = 0;
+            while i + 14 <= nibs.len() {
+                if nibs[i] == 0xd5 && nibs[i + 1] == 0xaa && nibs[i + 2] == p3 {
+                    let v = dec44(nibs[i + 3], nibs[i + 4]);
+                    let tr = dec44(nibs[i + 5], nibs[i + 6]);
+                    let sc = dec44(nibs[i + 7], nibs[i + 8]);
+                    let ck = dec44(nibs[i + 9], nibs[i + 10]);
+                    if v != vol || tr as usize != t || ck != v ^ tr ^ sc || nibs[i + 11] != 0xde || nibs[i + 12] != 0xaa { ok = false; }
+                    secs.push(sc);
+                    i += 14;
+                } else { i += 1; }
+            }
+            let want: Vec<u8> = if six { (0..16).collect() } else { SKEW13.to_vec() };
+            if !ok || secs != want { fails.push(("format-address-fields".into(), sig("format-address-field"))); }
+            // a fresh track reads as zeros everywhere
+            for s in 0..nsec {
+                match img.read_sector(t, 0, s) {
+                    Ok(v) => if v != vec![0u8; 256] { fails.push(("format-fresh-read".into(), sig("fresh-sector-not-zero"))); },
+                    Err(_) => fails.push(("format-fresh-read".into(), sig("fresh-sector-refused"))),
+                }
+            }
+        }
+        if kind != "nib" {
+            // whole tracks map to pairwise different entries, each with bits
+            let idxs: Vec<u8> = (0..35).map(|t| tmap[4 * t]).collect();
+            let mut s = idxs.clone(); s.sort(); s.dedup();
+            if s.len() != 35 || idxs.iter().any(|&i| i == 0xff || (i as usize) >= ents.len() || ents[i as usize].2 == 0) { fails.push(("tmap-injective".into(), sig("tmap-not-injective"))); }
+            if kind == "woz2" {
+                let mut rs: Vec<(usize, usize)> = idxs.iter().filter(|&&i| (i as usize) < ents.len()).map(|&i| (ents[i as usize].0, ents[i as usize].0 + ents[i as usize].1)).collect();
+                rs.sort();
+                if rs.windows(2).any(|w| w[0].1 > w[1].0) || rs.iter().any(|r| r.0 < 3 || (r.1 - 3) * 512 > total) { fails.push(("trks-disjoint".into(), sig("trks-overlap"))); }
+            }
+        }
+        let t1 = rng.below(35);
+        let t2 = (t1 + 1 + rng.below(34)) % 35;
+        let fm: Vec<(String, String)> = [t1, t2].iter().map(|&t| (format!("c08trk fmt {} {} {} {}", kind, six as u8, vol, t), hx(&tracks[t]))).collect();
+        (format!("c08trk new {} {} {}", kind, six as u8, vol), ans, fm, fails)
+    });
+    match res {
+        Ok((req, ans, fm, mut fails)) => {
+            ctx.out.q(&req, &ans);
+            for (r, a) in &fm { ctx.out.q(r, a); }
+            fails.sort(); fails.dedup();
+            if fails.is_empty() { ctx.out.oracle(true, "format", "-", &desc); }
+            for (o, s) in &fails { ctx.out.oracle(false, o, s, &desc); }
+            ctx.out.sample(&desc);
+            ctx.out.count(&format!("new:{}/{}", kind, if six { 16 } else { 13 }));
+            ctx.out.case(desc.as_bytes(), true);
+        }
+        Err(p) => { ctx.out.oracle(false, "no-panic", &format!("panic:{}", panic_site(&p)), &desc); ctx.out.case(desc.as_bytes(), false); }
+    }
+}
+
+fn seq_case(ctx: &mut Ctx, idx: usize, rng: &mut Rng) {
+    let kind = KINDS[idx % 3];
+    let six = rng.chance(60);
+    let vol = rng.byte();
+    let nsec = if six { 16 } else { 13 };
+    let n = bit_count(kind, six);
+    let mut desc = format!("idx={} seq {} {} vol={} ops=", idx, kind, nsec, vol);
+    let sig = |s: &str| format!("c08/{}/{}", kind, s);
+    let nops = 5 + rng.below(if ctx.tier_thorough { 14 } else { 8 });
+    let res = guarded(|| {
+        let mut fails: Vec<(String, String)> = Vec::new();
+        let mut img = make(kind, six, vol);
+        let mut ops: Vec<String> = Vec::new();
+        let mut ans: Vec<String> = Vec::new();
+        let mut expect: BTreeMap<(usize, usize), Vec<u8>> = BTreeMap::new();
+        let mut writes = 0;
+        let mut cross_reads = 0;
+        // all tracks rotated by the same amount: the carried head position stays meaningful, the first
+        // operation starts somewhere else on the track (NIB cannot re-synchronise: whole bytes only)
+        let mut aligned = true;
+        if rng.chance(50) {
+            let k = if kind == "nib" { 8 * rng.below(6656) } else if rng.chance(50) { let s = if six { 10 } else { 9 }; n - s * rng.below(21) } else { aligned = false; rng.below(n) };
+            for t in 0..35 {
+                let mut b = img.get_track_buf(t, 0).expect("track buf");
+                rotate_bits(&mut b, n, k % n);
+                img.set_track_buf(t, 0, &b).expect("set track buf");
+            }
+            ops.push(format!("rot:{}", k));
+            desc += &format!("ROT{} ", k);
+            ans.push(format!("@{}", combine(&raw_tracks(&mut img, kind).iter().map(|t| fnv(t)).collect::<Vec<_>>())));
+        }
+        let mut hot: Vec<usize> = (0..3).map(|_| rng.below(35)).collect();
+        let mut last_w: Option<(usize, usize)> = None;
+        for _ in 0..nops {
+            let invalid = rng.chance(12);
+            let (c, h, s) = if invalid {
+                match rng.below(4) { 0 => (35 + rng.below(300), 0, rng.below(nsec)), 1 => (rng.below(35), 1 + rng.below(3), rng.below(nsec)),
+                    2 => (rng.below(35), 0, nsec + rng.below(256 - nsec)), _ => (rng.below(35), 0, 256 + rng.below(1000)) }
+            } else {
+                let c = if rng.chance(70) { hot[rng.below(hot.len())] } else { let c = rng.below(35); hot.push(c); c };
+                (c, 0, rng.below(nsec))
+            };
+            let before = raw_tracks(&mut img, kind);
+            if rng.chance(45) {
+                let len = *rng.pick(&[0usize, 1, 17, 255, 256, 256, 256, 257, 300]);
+                let dat = if rng.chance(15) { vec![rng.byte(); len] } else { rng.bytes(len) };
+                ops.push(format!("w:{}:{}:{}:{}", c, h, s, hx(&dat)));
+                desc += &format!("W{}/{}/{}#{} ", c, h, s, len);
+                let r = img.write_sector(c, h, s, &dat);
+                let after = raw_tracks(&mut img, kind);
+                match r {
+                    Ok(()) => {
+                        if invalid { fails.push(("invalid-refused".into(), sig("invalid-accepted"))); }
+                        else { let mut d = dat.clone(); d.resize(256, 0); d.truncate(256); expect.insert((c, s), d); writes += 1; last_w = Some((c, s)); }
+                        for t in 0..35 { if t != c && before[t] != after[t] { fails.push(("frame-across-tracks".into(), sig("frame-across-tracks"))); } }
+                        if !invalid && before[c][(n + 7) / 8..] != after[c][(n + 7) / 8..] { fails.push(("frame-in-track".into(), sig("write-outside-bit-count"))); }
+                    }
+                    Err(e) => {
+                        if !invalid && aligned { fails.push(("valid-accepted".into(), sig(&format!("valid-write-refused/{}", err_str(&e))))); }
+                        if before != after { fails.push(("refused-harmless".into(), sig("refused-changed-image"))); }
+                        ans.push(format!("{}@{}", err_str(&e), combine(&after.iter().map(|t| fnv(t)).collect::<Vec<_>>())));
+                        continue;
+                    }
+                }
+                ans.push(format!("ok@{}", combine(&after.iter().map(|t| fnv(t)).collect::<Vec<_>>())));
+            } else {
+                ops.push(format!("r:{}:{}:{}", c, h, s));
+                desc += &format!("R{}/{}/{} ", c, h, s);
+                let r = img.read_sector(c, h, s);
+                let after = raw_tracks(&mut img, kind);
+                if before != after { fails.push(("read-harmless".into(), sig("read-changed-image"))); }
+                match r {
+                    Ok(v) => {
+                        if invalid { fails.push(("invalid-refused".into(), sig("invalid-accepted"))); }
+                        else {
+                            let want = expect.get(&(c, s)).cloned().unwrap_or(vec![0u8; 256]);
+                            if v != want { fails.push((if expect.contains_key(&(c, s)) { "read-after-write" } else { "frame-in-track" }.into(), sig(if expect.contains_key(&(c, s)) { "read-after-write" } else { "unwritten-sector-changed" }))); }
+                            if let Some(w) = last_w { if w != (c, s) { cross_reads += 1; } }
+                        }
+                        ans.push(format!("ok:{}", hx(&v)));
+                    }
+                    Err(e) => {
+                        if !invalid && aligned { fails.push(("valid-accepted".into(), sig(&format!("valid-read-refused/{}", err_str(&e))))); }
+                        ans.push(err_str(&e));
+                    }
+                }
+            }
+        }
+        // final sweep (oracle only): every sector of the tracks in play and of three bystander tracks
+        let mut sweep: Vec<usize> = expect.keys().map(|k| k.0).collect();
+        for _ in 0..3 { sweep.push(rng.below(35)); }
+        sweep.sort(); sweep.dedup();
+        for &t in &sweep {
+            for s in 0..nsec {
+                let want = expect.get(&(t, s)).cloned().unwrap_or(vec![0u8; 256]);
+                match img.read_sector(t, 0, s) {
+                    Ok(v) => if v != want { fails.push(("final-sweep".into(), sig(if expect.contains_key(&(t, s)) { "read-after-write" } else { "frame-in-track" }))); },
+                    Err(e) => if aligned { fails.push(("final-sweep".into(), sig(&format!("valid-read-refused/{}", err_str(&e))))); },
+                }
+            }
+        }
+        (format!("c08trk seq {} {} {} {}", kind, six as u8, vol, ops.join(";")), ans.join(";"), fails, desc.clone(), writes > 0 && cross_reads > 0, aligned)
+    });
+    match res {
+        Ok((req, ans, mut fails, d, nontrivial, aligned)) => {
+            ctx.out.q(&req, &ans);
+            fails.sort(); fails.dedup();
+            if fails.is_empty() { ctx.out.oracle(true, "image-seq", "-", &d); }
+            for (o, s) in &fails { ctx.out.oracle(false, o, s, &d); }
+            ctx.out.sample(&d);
+            ctx.out.count(&format!("seq:{}/{}{}", kind, nsec, if aligned { "" } else { "/unaligned-start" }));
+            ctx.out.case(d.as_bytes(), nontrivial);
+        }
+        Err(p) => { ctx.out.oracle(false, "no-panic", &format!("panic:{}", panic_site(&p)), &desc); ctx.out.case(desc.as_bytes(), false); }
+    }
+}
+
+pub fn run(ctx: &mut Ctx) {
+    let mut rng = Rng::new(ctx.seed ^ 0xC08_7124);
+    for idx in 0..6 {
+        let mut r = rng.fork(idx as u64);
+        if ctx.out.wants(idx) { new_case(ctx, idx, &mut r); }
+    }
+    let nseq = ctx.n(15, 300);
+    for k in 0..nseq {
+        let idx = 100 + k;
+        let mut r = rng.fork(idx as u64);
+        if ctx.out.wants(idx) { seq_case(ctx, idx, &mut r); }
+    }
+}
